@@ -89,6 +89,19 @@ type xmlParser struct {
 	nsPos      int
 	attrs      []XmlAttribute
 	attrPos    int
+	// The token read ahead while gathering adjacent character data.
+	next    xml.Token
+	nextErr error
+	hasNext bool
+}
+
+func (x *xmlParser) token() (xml.Token, error) {
+	if x.hasNext {
+		x.hasNext = false
+		return x.next, x.nextErr
+	}
+
+	return x.xmlReader.Token()
 }
 
 func (x *xmlParser) Pull() (node.Node, bool, error) {
@@ -110,7 +123,7 @@ func (x *xmlParser) Pull() (node.Node, bool, error) {
 	x.attrPos = 0
 	x.namespaces = emptyXmlNamespaces
 	x.nsPos = 0
-	tok, err := x.xmlReader.Token()
+	tok, err := x.token()
 
 	if err != nil {
 		return nil, false, err
@@ -126,13 +139,33 @@ func (x *xmlParser) Pull() (node.Node, bool, error) {
 			local: n.Name.Local,
 		}, false, nil
 	case xml.CharData:
-		if x.depth == 0 && strings.Trim(string(n), " \t\r\n") == "" {
+		// Adjacent character data (text and CDATA sections) forms one text node.
+		value := string(n)
+
+		for {
+			x.next, x.nextErr = x.xmlReader.Token()
+			more, ok := x.next.(xml.CharData)
+
+			if !ok || x.nextErr != nil {
+				x.hasNext = true
+				break
+			}
+
+			value += string(more)
+		}
+
+		if x.depth == 0 && strings.Trim(value, " \t\r\n") == "" {
 			// White space outside of the document element is not a text node.
 			return x.Pull()
 		}
 
+		if value == "" {
+			// An empty CDATA section is not a text node.
+			return x.Pull()
+		}
+
 		return XmlCharData{
-			value: (string)(n),
+			value: value,
 		}, false, nil
 	case xml.Comment:
 		return XmlComment{
